@@ -86,6 +86,12 @@ strengthened = {
     "C16-j": "C16 server family: one client may sit in until-closed while the others handshake, ask for help and run property commands; the parked client is released by closing the pool",
     "C18-j": "C18: pipelined segments of two or three lines drawn from requests, cancel-all, pool-size reads / assignments and probes (one reply per line, session alive)",
     "C19-j": "C19: is_serving() has to be false right after the stop (with clients still connected), not only once the serving task has completed",
+    "C01-k": "C01: pools may get their size by assignment right after construction (operation 'init_size', before any request; in particular pools created without a size), two pools per scenario more often",
+    "C12-k": "C12: a violation of a C10 clause (group membership, names) in a run with injected failures also counts for C12 (groups_after_failure: later requests proceed as if the failed one had succeeded)",
+    "C16-k": "C16: after the help round another client with a different terminal width connects (to another pool of the process); the help shown to the first client must not change",
+    "C17-k": "C17: pool sizes beyond 2**53 (2**53+1, 10**18+1, 10**30)",
+    "C18-k": "C18: application code waits for the close of the served pool and gives up (its until_closed() call is cancelled); parked sessions must stay alive (their session task is checked)",
+    "C02-i": "(caught on arrival, weak in the 3-seed matrix) sweep base with gather_and_close() already waiting for gated workers and slow cancel callbacks; gather_and_close more frequent in the C02 generator",
     "C08-e": "C08: pool_size assignments in the C08 generator (while tasks are inside callbacks)",
     "C13-e": "C13: new 'server' family - a session's pending flush plus the program's own flush while the control server is stopped; pool generator: flush calls whose caller gives up (cancelled flush) are modelled",
     "C14-e": "C14: exact oracle for stop()/stop_all() also when tasks cancelled before their first step are around (was lenient there)",
